@@ -46,6 +46,14 @@ CHECKS = {
    "bounded exhaustive derivation of adversarial blobs from valid signatures of three producers (every byte position x every bit / every value; a catalogue of structural DER edits) x 3 verifying certificates x 3 entry points, one-directional differential against a from-the-RFC verifier",
    "Every derived blob is verified by the real library through each entry point against the right certificate, a foreign one and one with the same issuer+serial but another key; success is only allowed when an independent verifier confirms the three conditions of the statement; any panic is a violation. Exhaustive over the derivation families.",
    "Soundness is relative to the enumerated families (single-byte rewrites and the edit catalogue), not all forgeries; RSA/SHA-256 and refp7 trusted; OpenSSL seeds are produced at check time (signing time varies, structure does not).", "DESIGN.md section 4 C04"),
+ "C02": ("exploration", "E-shape",
+   "bounded exhaustive derivation of adversarial signed images (every byte position of the signed file, all cross-image transplants, structural rewrites of the embedded blob incl. digest forgeries, substitute keys) x 3 verifying certificates, one-directional differential against independent PE and PKCS#7 readers",
+   "Every derived file is parsed and verified by the real library against the right certificate, a foreign one and one with the same issuer+serial but another key; success is only allowed when an independent reader finds a signature valid for that certificate committing to the specification digest of exactly these bytes. Exhaustive over the derivation families.",
+   "Soundness relative to the enumerated forgery families; RSA/SHA-256, refpe and refp7 trusted; panics are counted here and judged under C13.", "DESIGN.md section 4 C02"),
+ "C03": ("model_checking", "E-seq",
+   "explicit-state search over signing histories (Sign with 3 key sizes, re-sign, serialise/re-parse) on the real image object from 11 initial images, state = output bytes + in-place signature count, invariants checked by an independent reader in every state",
+   "All histories up to the depth bound are executed on the real object; in every reached state the serialised file is inspected byte-wise by an independent reader (preserved prefix, padding, alignment, directory entry, dwLength, revision/type, embedded digest = digest of the file itself) and the library's own Hash/Verify/Signatures views are compared with the signing history. Exhaustive up to the depth bound.",
+   "Depth 3 (quick) / 6 (thorough); three key sizes; frozen clock; refpe/refp7 trusted.", "DESIGN.md section 4 C03"),
 }
 
 NOT_YET = "check not built yet in this round (planned, see DESIGN.md section 4); no claim is made"
